@@ -1,6 +1,8 @@
 import OmbottModel.Model.WsgiConc
 import OmbottModel.Lemmas.TsPropsMachine
 import OmbottModel.Lemmas.WsgiConcRun
+import OmbottModel.Lemmas.ConfigFrame
+import OmbottModel.Lemmas.ConfigMixin
 /-!
 C10 — Application objects in one process are independent of each other.
 Property theorems only; helper lemmas live in `Lemmas/TsProps*.lean`, `Lemmas/WsgiConcRun.lean`.
@@ -163,3 +165,431 @@ example :
 end NonVacuity
 
 end Ombott.TsProps
+
+/-! ## Extension: the class / configuration machinery every application is built on
+
+`Model/Config.lean` (`_MetaSimpleConfig`, `SimpleConfig`, `NameSpace`, `cached_property`, `proxy`, `MixableMeta`,
+`DefaultConfig` / `RequestConfig`, `Ombott.__init__` / `setup` / `_hooks`, `BaseRequest.__new__` / `setup` / `copy`), tied
+to the code by the `config` correspondence stream of `harness/configlib.py`.  Helper lemmas: `Lemmas/Config*.lean`.
+
+Reading of C10 used here: the property speaks about SERVING, COPYING and CONSTRUCTING.  Those never write a
+configuration object of another application (`setup_rebinds_only_own`, `get_from_new_object`, and serving / copying do not
+write configuration at all: `serve_copy_leave_config`).  An application that edits its OWN config is not mentioned by
+C10; what the model says about it is stated exactly: rebinding edits stay local (`get_from_fresh`), an in-place
+mutation of a shared mutable default VALUE (`Gen.cfgMutableDefaults`) shows in every application
+(`shared_default_in_place_visible`) - outside C10, reported as a note of the check. -/
+namespace Ombott.Config
+open Py
+
+/-- **get_from_total_and_exact**: for every class, source mapping and kw, the NameSpace `get_from` returns has exactly
+the keys `cls.keys()` lists (the holder's keys), in that order; each is bound to the source's value if the source has
+the key, else kw's, else the class default found along the MRO; nothing else is bound (unknown keys of the source and
+of kw are ignored). -/
+theorem get_from_total_and_exact (cs : Classes) (h h' : Heap) (c : CClass) (src : Option (AList Val)) (kw : AList Val)
+    (o : Nat) (hg : getFrom cs h c src kw = .ok (h', o)) :
+    akeys (hget h' o) = classKeys cs c ∧
+    (∀ k ∈ classKeys cs c, ∃ d, getattrC cs c k = some d ∧
+      aget (hget h' o) k = some ((aget (src.getD []) k).getD ((aget kw k).getD d))) ∧
+    (∀ k, k ∉ classKeys cs c → aget (hget h' o) k = none) := by
+  unfold getFrom classItems at hg
+  cases hi : itemsLoop cs c (classKeys cs c) with
+  | error e => simp [hi] at hg
+  | ok items =>
+    simp only [hi, Except.ok.injEq] at hg
+    obtain ⟨k1, k2⟩ := itemsLoop_spec cs c _ items hi
+    have hh : hget h' o = pickValues items (src.getD []) kw := by
+      have := hget_alloc_new h (pickValues items (src.getD []) kw)
+      rw [hg] at this; exact this
+    rw [hh]
+    refine ⟨by rw [akeys_pickValues, k1], ?_, ?_⟩
+    · intro k hk
+      have hk2 := k2 k hk
+      cases hd : getattrC cs c k with
+      | none =>
+        have : k ∈ akeys items := by rw [k1]; exact hk
+        have hn : aget items k ≠ none := by
+          intro hn
+          simp only [akeys, List.mem_map] at this
+          obtain ⟨p, hp, rfl⟩ := this
+          clear hk hk2 hd k1 k2 hi hh hg
+          induction items with
+          | nil => simp at hp
+          | cons q r ih =>
+            by_cases hq : q.1 = p.1
+            · simp [aget, hq] at hn
+            · simp only [aget, hq, if_false] at hn
+              rcases List.mem_cons.mp hp with rfl | hp'
+              · exact hq rfl
+              · exact ih hp' hn
+        rw [hk2, hd] at hn; exact absurd rfl hn
+      | some d =>
+        refine ⟨d, rfl, ?_⟩
+        rw [aget_pickValues, hk2, hd]; rfl
+    · intro k hk
+      apply aget_none_of_not_mem
+      rw [akeys_pickValues, k1]; exact hk
+
+/-- **get_from_new_object**: the NameSpace `get_from` returns is a NEW object - its identity is not that of any object
+that existed before, and every existing object (every other configuration, every dict) is left exactly as it was. -/
+theorem get_from_new_object (cs : Classes) (h h' : Heap) (c : CClass) (src : Option (AList Val)) (kw : AList Val)
+    (o : Nat) (hg : getFrom cs h c src kw = .ok (h', o)) :
+    o = h.length ∧ h'.length = h.length + 1 ∧ ∀ o' < h.length, hget h' o' = hget h o' :=
+  getFrom_new cs h h' c src kw o hg
+
+/-- **get_from_fresh**: for every world, every two applications `a`, `b` whose configuration objects are separate (what
+`b` reads - its config, its request's config and the dicts they hold - contains neither NameSpace of `a`), EVERY sequence
+of setattr / setitem / setdefault / update operations (with scalars or with new dicts, i.e. rebinding) on the config of
+`a` or of its request leaves every configuration read of `b` unchanged.  The only channel left is in-place mutation of
+a shared mutable default value (`shared_default_in_place_visible`). -/
+theorem get_from_fresh (w : World) (a b : Nat) (x y : App) (ha : w.app a = some x) (hb : w.app b = some y)
+    (hsep : ∀ o ∈ readSet w.heap y, o ≠ x.config ∧ o ≠ x.reqConfig ∧ o < w.heap.length)
+    (ops : List Op) (hops : ∀ op ∈ ops, isEdit a op = true) :
+    appView (exec w ops) b = appView w b :=
+  edits_frame a b x y ops hops w ha hb hsep
+
+/-- the separation hypothesis of `get_from_fresh` is what construction gives: after `Ombott(src)` for a new
+application `a`, every application `b` that existed before (whose objects exist) is separate from `a`. -/
+theorem ombott_init_separates (w w' : World) (a b : Nat) (src : Option (AList Val)) (y : App) (hab : b ≠ a)
+    (hi : ombottInit w a src = .ok w') (hb : w.app b = some y)
+    (hwf : ∀ o ∈ readSet w.heap y, o < w.heap.length) :
+    ∃ x, w'.app a = some x ∧ w'.app b = some y ∧
+      ∀ o ∈ readSet w'.heap y, o ≠ x.config ∧ o ≠ x.reqConfig ∧ o < w'.heap.length := by
+  unfold ombottInit at hi
+  cases hbc : buildConfigs w src with
+  | error e => simp [hbc] at hi
+  | ok t =>
+    obtain ⟨h, c, r⟩ := t
+    simp only [hbc, Except.ok.injEq] at hi
+    obtain ⟨ec, er, hl, hold⟩ := buildConfigs_spec w src h c r hbc
+    have hrs : readSet w'.heap y = readSet w.heap y := by
+      have hc := hold _ (hwf y.config (by simp [readSet]))
+      have hr := hold _ (hwf y.reqConfig (by simp [readSet]))
+      rw [← hi]; simp [readSet, World.setApp, hc, hr]
+    refine ⟨{ config := c, reqConfig := r }, by rw [← hi]; exact app_setApp_same _ _ _,
+      by rw [← hi, app_setApp_ne _ _ _ _ hab]; exact hb, ?_⟩
+    intro o ho
+    rw [hrs] at ho
+    have := hwf o ho
+    have hl' : w'.heap.length = w.heap.length + 2 := by rw [← hi]; simpa [World.setApp] using hl
+    exact ⟨by simp only; omega, by simp only; omega, by omega⟩
+
+/-- **shared_default_in_place_visible** (model witness; outside C10): two applications built with the defaults;
+application 1 mutates `app1.config.errors_map` IN PLACE - application 2 (and its request) read the entry: the default
+value is one object shared by reference. -/
+theorem shared_default_in_place_visible :
+    let w := exec World.boot [.app 1 .none, .app 2 .none, .dictSet (.appConfig 1) "errors_map" "Teapot" (.int 418)]
+    readDictEntry w (.appConfig 2) "errors_map" "Teapot" = some (.int 418) ∧
+    readDictEntry w (.reqConfig 2) "errors_map" "Teapot" = some (.int 418) := by
+  decide
+
+/-- **shared_default_rebinding_local**: the same edit done by REBINDING (`app1.config.errors_map = {...}`) is not
+visible in application 2, nor in application 1's own request (which got its own NameSpace). -/
+theorem shared_default_rebinding_local :
+    let w := exec World.boot [.app 1 .none, .app 2 .none, .nsSetDict (.appConfig 1) "errors_map" [("Teapot", .int 418)]]
+    readDictEntry w (.appConfig 1) "errors_map" "Teapot" = some (.int 418) ∧
+    readDictEntry w (.appConfig 2) "errors_map" "Teapot" = none ∧
+    readDictEntry w (.reqConfig 2) "errors_map" "Teapot" = none ∧
+    readDictEntry w (.reqConfig 1) "errors_map" "Teapot" = none := by
+  decide
+
+/-- tie to the source: the defaults that are shared by reference are exactly the generated `cfgMutableDefaults`
+(extracted by type from the live classes): in the boot world a class attribute of DefaultConfig / RequestConfig is a
+reference iff it is listed; the live probe saw each of them shared, the four config objects of two applications distinct
+and `setup` rebinding only its own; `Ombott._hooks` is a `cached_property`. -/
+theorem config_tables_as_modelled :
+    (∀ c ∈ World.boot.classes, ∀ kv ∈ c.dict,
+      (match kv.2 with | .ref _ => true | _ => false) = Gen.cfgMutableDefaults.contains (c.name, kv.1)) ∧
+    (∀ r ∈ Gen.cfgSharedByRef, r.2 = true) ∧ Gen.cfgFreshProbe = (true, true) ∧ Gen.cfgHooksIsCached = true ∧
+    ((findClass World.boot.classes "DefaultConfig").bind (·.holderAttr)) = some "DefaultConfig" ∧
+    ((findClass World.boot.classes "RequestConfig").bind (·.keysAttr)) = none := by
+  decide
+
+/-- **setup_rebinds_only_own**: `Ombott.setup(cfg)` binds two NEW NameSpaces to the application's `config` and to its
+request's `config` and changes nothing else: every other application, every register, every class and every object
+that existed is as before; the application keeps its hooks. -/
+theorem setup_rebinds_only_own (w w' : World) (a : Nat) (src : Option (AList Val)) (hs : ombottSetup w a src = .ok w') :
+    (∀ b, b ≠ a → w'.app b = w.app b) ∧ w'.classes = w.classes ∧ w'.regs = w.regs ∧
+    w'.heap.length = w.heap.length + 2 ∧ (∀ o < w.heap.length, hget w'.heap o = hget w.heap o) ∧
+    ∃ x x', w.app a = some x ∧ w'.app a = some x' ∧ x'.hooks = x.hooks ∧
+      x'.config = w.heap.length ∧ x'.reqConfig = w.heap.length + 1 := by
+  unfold ombottSetup at hs
+  cases hx : w.app a with
+  | none => simp [hx] at hs
+  | some x =>
+    simp only [hx] at hs
+    cases hbc : buildConfigs w src with
+    | error e => simp [hbc] at hs
+    | ok t =>
+      obtain ⟨h, c, r⟩ := t
+      simp only [hbc, Except.ok.injEq] at hs
+      obtain ⟨ec, er, hl, hold⟩ := buildConfigs_spec w src h c r hbc
+      subst hs
+      exact ⟨fun b hb => app_setApp_ne _ _ _ _ hb, rfl, rfl, by simpa [World.setApp] using hl,
+        fun o ho => by simpa [World.setApp] using hold o ho,
+        x, _, rfl, app_setApp_same _ _ _, rfl, ec, er⟩
+
+/-- serving a request and `Request.copy()` do not write any configuration: every application's view is unchanged
+(`copy` only adds the copy's own new NameSpace) -/
+theorem serve_copy_leave_config (w : World) (a b : Nat) (reg : Name) (y : App) (hb : w.app b = some y)
+    (hwf : ∀ o ∈ readSet w.heap y, o < w.heap.length) :
+    appView (step w (.serve a)).1 b = appView w b ∧ appView (step w (.copy a reg)).1 b = appView w b := by
+  constructor
+  · simp only [step]; split <;> rfl
+  · simp only [step]
+    cases hx : w.app a with
+    | none => simp
+    | some x =>
+      simp only [Option.isNone_some, Bool.false_eq_true, if_false]
+      unfold requestCopy
+      cases hrc : findClass w.classes "RequestConfig" with
+      | none => simp [hx, liftW]
+      | some rc =>
+        simp only [hx]
+        cases h1 : getFrom w.classes w.heap rc (some (hget w.heap x.reqConfig)) [] with
+        | error e => simp [liftW]
+        | ok r1 =>
+          obtain ⟨h1', o⟩ := r1
+          obtain ⟨e1, l1, f1⟩ := getFrom_new _ _ _ _ _ _ _ h1
+          simp only [liftW]
+          exact (appView_frame w { w with heap := h1', regs := aset w.regs reg o } b y hb hb
+            (fun o' ho' => f1 o' (hwf o' ho'))).1
+
+/-- **meta_rejects_unknown_keys**: when the bases carry a (non-empty) key set, `_MetaSimpleConfig.__init__` accepts a
+class body exactly when every key that does not start with `_` is one of the holder's keys, and the only error it raises
+then is KeyError; a class whose body is refused is not created. -/
+theorem meta_rejects_unknown_keys (cs : Classes) (bases keys : List Name) (dct : AList Val)
+    (hk : metaGetKeys cs bases = .ok (some keys)) (hne : keys ≠ []) :
+    (metaInit cs bases dct = .ok () ↔ ∀ k ∈ akeys dct, isPrivate k = true ∨ k ∈ keys) ∧
+    (∀ e, metaInit cs bases dct = .error e → e = .keyError) ∧
+    (∀ name cs', defineClass cs name bases dct = .ok cs' → ∀ k ∈ akeys dct, isPrivate k = true ∨ k ∈ keys) := by
+  have hi : metaInit cs bases dct = metaCheckKeys keys (akeys dct) := by
+    cases keys with
+    | nil => exact absurd rfl hne
+    | cons k r => simp [metaInit, hk]
+  refine ⟨by rw [hi]; exact metaCheckKeys_ok _ _, fun e he => metaCheckKeys_err _ _ e (hi ▸ he), ?_⟩
+  intro name cs' hd
+  unfold defineClass at hd
+  split at hd
+  · simp at hd
+  · split at hd
+    · simp at hd
+    · rename_i hm
+      rw [hi] at hm
+      exact (metaCheckKeys_ok _ _).mp hm
+
+/-- **keys_holder registration facts**: a successful `cls.keys_holder(holder)` was called on a class whose base is
+`object`, on a holder that had no registered holder along its MRO; it records as `__keys__` exactly what `holder.keys()`
+listed, none of which is an attribute of `cls` (reserved names), sets `__keys_holder__` to the holder, and changes no
+other class. -/
+theorem keys_holder_registers (cs cs' : Classes) (clsN holderN : Name) (hk : keysHolder cs clsN holderN = .ok cs') :
+    ∃ cls holder, findClass cs clsN = some cls ∧ findClass cs holderN = some holder ∧
+      cls.bases = [] ∧ getHolderAttr cs holder = none ∧
+      (∀ k ∈ classKeys cs holder, hasattrC cs cls k = false) ∧
+      cs' = cs.map (fun c => if c.name == holderN then
+        { c with keysAttr := some (classKeys cs holder), holderAttr := some holderN } else c) := by
+  unfold keysHolder at hk
+  cases hc : findClass cs clsN with
+  | none => simp [hc] at hk
+  | some cls =>
+    cases hh : findClass cs holderN with
+    | none => simp [hc, hh] at hk
+    | some holder =>
+      simp only [hc, hh] at hk
+      refine ⟨cls, holder, rfl, rfl, ?_⟩
+      split at hk
+      · simp at hk
+      split at hk
+      · simp at hk
+      rename_i hb
+      split at hk
+      · simp at hk
+      rename_i hho
+      split at hk
+      · simp at hk
+      split at hk
+      · simp at hk
+      rename_i hany
+      simp only [Bool.not_eq_true, List.any_eq_false] at hany
+      refine ⟨by simpa using hb, by simpa using hho, fun k hk' => by simpa using hany k hk', ?_⟩
+      simpa using hk.symm
+
+/-- **cached_property_once** (one access): the getter runs exactly when the instance has no attribute of that name;
+with an attribute present the stored value is returned and nothing changes; after a successful run the value is stored;
+an AttributeError raised inside the getter surfaces as PropertyGetterError, every other exception as itself. -/
+theorem cached_property_once {α} (slot : Option α) (getter : Except CErr α) :
+    (∀ sl v ran, cpGet slot getter = .ok (sl, v, ran) → ran = slot.isNone ∧ sl = some v ∧ (∀ u, slot = some u → v = u)) ∧
+    (∀ e, cpGet slot getter = .error e → slot = none ∧
+      ((getter = .error .attributeError ∧ e = .propertyGetterError) ∨ (getter = .error e ∧ e ≠ .attributeError))) := by
+  cases slot with
+  | some u => simp [cpGet]
+  | none =>
+    cases getter with
+    | ok v => simp [cpGet]
+    | error e => cases e <;> simp [cpGet]
+
+/-- **cached_property_once** (every sequence of get / del / set on any number of instances): for every instance `i`,
+which of its accesses ran the getter, and whether it holds the attribute afterwards, are what they are when all
+operations on the other instances are deleted - instances do not share the cache. -/
+theorem cached_property_per_instance (i : Nat) (ops : List CpOp) :
+    ∀ s s' : CpState, (s.slot i).isSome = (s'.slot i).isSome →
+      (cpTrace s ops).filter (fun e => e.1.touches i) = cpTrace s' (ops.filter (·.touches i)) ∧
+      ((cpRun s ops).1.slot i).isSome = ((cpRun s' (ops.filter (·.touches i))).1.slot i).isSome := by
+  induction ops with
+  | nil => intro s s' h; simp [cpTrace, cpRun, h]
+  | cons op r ih =>
+    intro s s' h
+    by_cases ht : op.touches i = true
+    · obtain ⟨e1, e2⟩ := cpStep_same s s' op i ht h
+      obtain ⟨i1, i2⟩ := ih (cpStep s op).1 (cpStep s' op).1 e2
+      simp only [List.filter_cons, ht, if_true, cpTrace_cons, e1, i1]
+      exact ⟨trivial, by simpa [cpRun] using i2⟩
+    · have ht' : op.touches i = false := by simpa using ht
+      have e := cpStep_other s op i ht'
+      obtain ⟨i1, i2⟩ := ih (cpStep s op).1 s' (by rw [e]; exact h)
+      simp only [List.filter_cons, ht', cpTrace_cons, i1]
+      exact ⟨by simp, by simpa [cpRun] using i2⟩
+
+/-- **hooks_per_app** (the C10 consequence of `cached_property_once`): `Ombott._hooks` is a `cached_property` whose
+getter builds a new dict, so the first access of application `a` yields an object that is not the identity of ANY
+existing object - in particular not the hook dict of any other application - and every later access yields that same
+object; no other application's slot is touched. -/
+theorem hooks_per_app (w w' : World) (a o : Nat) (h : hooksOf w a = .ok (w', o)) :
+    ∃ x, w.app a = some x ∧
+      ((x.hooks = some o ∧ w' = w) ∨
+       (x.hooks = none ∧ o = w.heap.length ∧ (∀ b, b ≠ a → w'.app b = w.app b) ∧
+        w'.app a = some { x with hooks := some o } ∧ ∀ o' < w.heap.length, hget w'.heap o' = hget w.heap o')) := by
+  unfold hooksOf at h
+  cases hx : w.app a with
+  | none => simp [hx] at h
+  | some x =>
+    refine ⟨x, rfl, ?_⟩
+    simp only [hx] at h
+    cases hh : x.hooks with
+    | some o' =>
+      simp [hh, cpGet, alloc] at h
+      exact Or.inl ⟨by rw [h.2], h.1.symm⟩
+    | none =>
+      simp [hh, cpGet, alloc] at h
+      obtain ⟨rfl, rfl⟩ := h
+      refine Or.inr ⟨rfl, rfl, fun b hb => app_setApp_ne _ _ _ _ hb, app_setApp_same _ _ _, fun o' ho' => ?_⟩
+      simp [World.setApp, hget, List.getElem?_append_left ho']
+
+/-- **proxy_forwards**: after `proxy(prop, attrs)` every injected name forwards to the attribute OF THE SAME NAME (the
+default-argument trick: not to the last name of the loop) of whatever object `prop` holds AT CALL TIME; names that were
+not injected keep the class's own definition. -/
+theorem proxy_forwards (d : AList PAttr) (prop : Name) (attrs : List Name) (targets : Targets) (inst : AList Name)
+    (a : Name) (x : String) :
+    (a ∈ attrs → proxyCall (proxyInject d prop attrs) targets inst a x =
+      proxyCall [(a, .forward prop a)] targets inst a x) ∧
+    (a ∉ attrs → proxyCall (proxyInject d prop attrs) targets inst a x = proxyCall d targets inst a x) := by
+  constructor
+  · intro ha; simp [proxyCall, aget_proxyInject, ha, aget]
+  · intro ha; simp [proxyCall, aget_proxyInject, ha]
+
+/-- what forwarding means, spelled out: the call reaches method `a` of the object `prop` holds now -/
+theorem proxy_forward_reaches (prop a t : Name) (targets : Targets) (inst : AList Name) (meths : List Name) (x : String)
+    (hp : aget inst prop = some t) (ht : aget targets t = some meths) (hm : meths.contains a = true) :
+    proxyCall [(a, .forward prop a)] targets inst a x = .ok (.target t a x) := by
+  have hm' : a ∈ meths := by simpa using hm
+  simp [proxyCall, aget, hp, ht, hm']
+
+/-- **mixin_attrs_exact**: for EVERY list of mixins, the class dict `MixableMeta._mixin` produces binds a name to the
+class's own definition when it has one, otherwise to the definition of the FIRST mixin (in base order) in which the
+name is eligible (not one of that mixin's slots, not `on_new` / `on_init`, not a dunder name), otherwise not at all;
+and `__mixins_special__` holds the mixins' `on_new` / `on_init` in mixin order. -/
+theorem mixin_attrs_exact (cs : MClasses) (dct : MDct) (mixins : List MClass) :
+    (∀ k, aget (mixin cs dct mixins).attrs k = (aget dct.attrs k).orElse fun _ => firstMixin cs mixins k) ∧
+    (mixin cs dct mixins).special = some (specialsOf cs "on_new" mixins, specialsOf cs "on_init" mixins) := by
+  unfold mixin
+  refine ⟨fun k => ?_, ?_⟩
+  · simpa using foldMixins_attrs cs mixins k
+      { attrs := dct.attrs, slots := dct.slots.getD [], onNew := [], onInit := [] }
+  · obtain ⟨a, b⟩ := foldMixins_specials cs mixins
+      { attrs := dct.attrs, slots := dct.slots.getD [], onNew := [], onInit := [] }
+    simp [a, b]
+
+/-- the wrappers `MixableMeta.__init__` installs call what they wrapped FIRST and then every collected special in order
+(`on_new` after the class's own `__new__`, `on_init` after its own `__init__`) -/
+theorem specials_called_in_order (cs : MClasses) (c : MClass) (inner : Callable) (ns is : List String)
+    (hs : specialOf cs c = some (ns, is)) :
+    (∀ t, runNew cs c inner = .ok t → runNew cs c (.wrapper inner) = .ok (t ++ ns.map ("on_new:" ++ ·))) ∧
+    (∀ t, runInit cs c inner = .ok t → runInit cs c (.wrapper inner) = .ok (t ++ is.map ("on_init:" ++ ·))) := by
+  constructor <;> intro t ht <;> simp [runNew, runInit, ht, hs]
+
+section NonVacuity
+
+/-- `get_from_total_and_exact` / `get_from_new_object`: `DefaultConfig.get_from({'debug': True, 'zz': 1}, catchall=0)`
+in the boot world succeeds -/
+example : ((findClass World.boot.classes "DefaultConfig").bind fun c =>
+    (getFrom World.boot.classes World.boot.heap c (some [("debug", .bool true), ("zz", .int 1)]) [("catchall", .int 0)]).toOption).isSome
+      = true := by
+  decide
+
+/-- `get_from_fresh` / `ombott_init_separates` / `serve_copy_leave_config`: two applications constructed in the boot
+world are separate in both directions, and the edits are edits -/
+example :
+    let w := exec World.boot [.app 1 .none, .app 2 (.lit [("debug", .bool true)])]
+    let x : App := { config := 3, reqConfig := 4 }
+    let y : App := { config := 5, reqConfig := 6 }
+    w.app 1 = some x ∧ w.app 2 = some y ∧
+      (∀ o ∈ readSet w.heap y, o ≠ x.config ∧ o ≠ x.reqConfig ∧ o < w.heap.length) ∧
+      (∀ o ∈ readSet w.heap x, o ≠ y.config ∧ o ≠ y.reqConfig ∧ o < w.heap.length) ∧
+      (∀ op ∈ [Op.nsSet (.appConfig 1) "debug" (.int 1), .nsSetDict (.reqConfig 1) "errors_map" [], .nsUpdate (.appConfig 1) []],
+        isEdit 1 op = true) := by
+  decide
+
+/-- `setup_rebinds_only_own`: `app1.setup({'debug': True})` succeeds in a world with two applications -/
+example : (ombottSetup (exec World.boot [.app 1 .none, .app 2 .none]) 1 (some [("debug", .bool true)])).toOption.isSome = true := by
+  decide
+
+/-- `meta_rejects_unknown_keys`: the bases `(DefaultConfig,)` carry a non-empty key set; a body with `zzz` is refused
+with KeyError, a body with `debug` and `_private` is accepted -/
+example : (match metaGetKeys World.boot.classes ["DefaultConfig"] with | .ok (some keys) => !keys.isEmpty | _ => false) = true ∧
+    errOf (metaInit World.boot.classes ["DefaultConfig"] [("zzz", .int 1)]) = some .keyError ∧
+    (metaInit World.boot.classes ["DefaultConfig"] [("debug", .bool true), ("_private", .int 1)]).toOption = some () := by
+  decide
+
+/-- `keys_holder_registers`: registering a new holder succeeds; registering `DefaultConfig` again is RuntimeError, through
+a subclass AssertionError, a reserved key KeyError -/
+example :
+    let cs := (defineClass World.boot.classes "H" ["SimpleConfig"] [("a", .int 1)]).toOption.getD []
+    (keysHolder cs "SimpleConfig" "H").toOption.isSome = true ∧
+    errOf (keysHolder cs "SimpleConfig" "DefaultConfig") = some .runtimeError ∧
+    errOf (keysHolder cs "DefaultConfig" "H") = some .assertionError ∧
+    errOf (keysHolder ((defineClass cs "R" ["SimpleConfig"] [("mro", .int 1)]).toOption.getD []) "SimpleConfig" "R")
+      = some .keyError := by
+  decide
+
+/-- `hooks_per_app`: two applications, each adds a hook: the lists are separate -/
+example :
+    let w := exec World.boot [.app 1 .none, .app 2 .none, .addHook 1 "before_request" "f", .addHook 2 "after_request" "g"]
+    (hooksListing w 1).toOption.map (·.2) = some [("before_request", .list ["f"]), ("after_request", .list [])] ∧
+    (hooksListing w 2).toOption.map (·.2) = some [("before_request", .list []), ("after_request", .list ["g"])] := by
+  decide
+
+/-- `proxy_forwards` on the generated `HeaderDict` proxy list: every injected name reaches the same-named method of the
+current `dict`; without the default-argument trick all would reach the last one -/
+example : ∀ a ∈ Gen.cfgHeaderDictProxied,
+    (proxyCall (proxyInject [] "dict" Gen.cfgHeaderDictProxied) [("D", Gen.cfgHeaderDictProxied)] [("dict", "D")] a "1").toOption =
+      some (.target "D" a "1") := by
+  decide
+
+/-- `cached_property_once` / `cached_property_per_instance`: a sequence on two instances; the getter ran three times -/
+example : (cpTrace {} [.get 1 .ok, .get 2 .ok, .get 1 .ok, .del 1, .get 1 .ok, .set 2 (.int 9), .get 2 .ok]).map (·.2) =
+    [true, true, false, false, true, false, false] := by
+  decide
+
+/-- `mixin_attrs_exact` / `specials_called_in_order`: two mixins, the first with a slot; own `y` wins over `M2.y`, `M1.x`
+over `M2.x`, the slot `s` and the dunder name are not copied, the specials are collected in order and called -/
+example :
+    let m1 : MClass := { name := "M1", bases := [], mro := ["M1"], slots := some ["s"],
+                         attrs := [("x", "M1.x"), ("s", "M1.s"), ("on_init", "M1.on_init")] }
+    let m2 : MClass := { name := "M2", bases := [], mro := ["M2"],
+                         attrs := [("x", "M2.x"), ("y", "M2.y"), ("on_init", "M2.on_init"), ("__d__", "M2.__d__")] }
+    let r := mixin [m1, m2] { attrs := [("y", "A.y")] } [m1, m2]
+    r.attrs = [("y", "A.y"), ("x", "M1.x")] ∧ r.special = some ([], ["M1.on_init", "M2.on_init"]) ∧ r.slots = some ["s"] := by
+  decide
+
+end NonVacuity
+
+end Ombott.Config
